@@ -8,15 +8,17 @@ from ..model import AnalysisError, attr_chain, call_name, enclosing, stmts_in
 EXPLANATION = (
     "Static rules over Arc.as_cubic_curves / as_quad_curves and Path.approximate_arcs_with_* (no execution). R19.1 pinning "
     "and continuity: the first curve starts at self.start; on the last iteration the end is pinned to self.end before the "
-    "curve is built; each yielded curve runs from the loop-carried start to the iteration's end; afterwards the carried start "
-    "becomes that end and the parameter advances by one slice. R19.2: a zero slice count returns before the division by it "
-    "and before anything is yielded. R19.3 formulas (loop body folded to exact canonical forms over opaque cos/sin): slice "
-    "count ceil(|sweep| / limit), slice = sweep / count; for cubics the end point is the ellipse point E(t2), the controls "
-    "are start + alpha E'(t1) and end - alpha E'(t2) with E, E' the ellipse and its derivative in centre/radii/rotation "
-    "form and alpha = sin(dt) (sqrt(4 + 3 tan^2(dt/2)) - 1)/3 (Maisonobe); for quadratics the control is the centre plus a "
-    "slice-only factor times the ellipse radius vector at the mid parameter. R19.4: the path-level converters walk the path "
-    "backwards and replace each arc by slice assignment (which re-validates every connection), with the slice count from "
-    "|sweep| / (full turn x error). Not decided: the 1e-3 / 1e-2 distance bounds themselves (numeric)."
+    "curve is built; each yielded curve runs from the loop-carried start to the iteration's end; afterwards the carried "
+    "start becomes that end and the parameter advances by one slice. R19.2: a zero slice count returns before the division "
+    "by it and before anything is yielded. R19.3 formulas (loop body folded to exact canonical forms over opaque cos/sin): "
+    "slice count ceil(|sweep| / limit), slice = sweep / count; for cubics the end point is the ellipse point E(t2), the "
+    "controls are start + alpha E'(t1) and end - alpha E'(t2) with E, E' the ellipse and its derivative in "
+    "centre/radii/rotation form and alpha = sin(dt) (sqrt(4 + 3 tan^2(dt/2)) - 1)/3 (Maisonobe); for quadratics the control"
+    " is the centre plus a slice-only factor times the ellipse radius vector at the mid parameter. R19.4: the path-level "
+    "converters walk the path backwards (descending index loop; an ascending `for i, seg in enumerate(self)` walk is "
+    "reported: it skips the segment after an arc that is replaced by nothing) and replace each arc by slice assignment "
+    "(which re-validates every connection), with the slice count from |sweep| / (full turn x error). Not decided: the 1e-3 "
+    "/ 1e-2 distance bounds themselves (numeric)."
 )
 TECHNIQUE = (
     "static analysis (no execution): loop-carried continuity and end pinning; control-point formulas as exact canonical forms over opaque trig atoms; structural rules for path-level replacement"
@@ -266,15 +268,24 @@ def path_level(ctx):
         qual = "Path.approximate_arcs_with_%s" % kind
         fn = ctx.fn(qual, "R19.4")
         loops = [s for s in fn.body if isinstance(s, ast.For)]
-        ctx.need(len(loops) == 1 and isinstance(loops[0].target, ast.Name), "R19.4", "%s: loop not found" % qual)
+        ctx.need(len(loops) == 1, "R19.4", "%s: loop not found" % qual)
         lp = loops[0]
-        ctx.ob("R19.4", "%s[backwards]" % qual, _descending_indices(lp.iter), ast.unparse(lp.iter), lp.lineno,
-               "replacing from the back keeps the indices of the segments still to visit valid")
-        iv = lp.target.id
-        segv = [tg.id for tg, v, n in bindings(lp) if isinstance(tg, ast.Name) and isinstance(v, ast.Subscript) and isinstance(v.value, ast.Name) and v.value.id == "self"
-                and isinstance(v.slice, ast.Name) and v.slice.id == iv]
-        ctx.need(len(segv) == 1, "R19.4", "%s: current segment local not found" % qual)
-        seg = segv[0]
+        seg = None
+        if isinstance(lp.target, ast.Tuple) and len(lp.target.elts) == 2 and all(isinstance(e, ast.Name) for e in lp.target.elts) \
+                and isinstance(lp.iter, ast.Call) and call_name(lp.iter) == "enumerate" and lp.iter.args and isinstance(lp.iter.args[0], ast.Name) and lp.iter.args[0].id == "self":
+            # `for i, seg in enumerate(self)`: index and segment together, visiting in ascending order
+            iv, seg = lp.target.elts[0].id, lp.target.elts[1].id
+            ctx.ob("R19.4", "%s[backwards]" % qual, False, ast.unparse(lp.iter), lp.lineno,
+                   "replacing from the back keeps the indices of the segments still to visit valid; an ascending walk skips the segment after an arc that is replaced by nothing")
+        else:
+            ctx.need(isinstance(lp.target, ast.Name), "R19.4", "%s: loop form not recognised" % qual)
+            ctx.ob("R19.4", "%s[backwards]" % qual, _descending_indices(lp.iter), ast.unparse(lp.iter), lp.lineno,
+                   "replacing from the back keeps the indices of the segments still to visit valid")
+            iv = lp.target.id
+            segv = [tg.id for tg, v, n in bindings(lp) if isinstance(tg, ast.Name) and isinstance(v, ast.Subscript) and isinstance(v.value, ast.Name) and v.value.id == "self"
+                    and isinstance(v.slice, ast.Name) and v.slice.id == iv]
+            ctx.need(len(segv) == 1, "R19.4", "%s: current segment local not found" % qual)
+            seg = segv[0]
         gens = [c for c in ast.walk(lp) if isinstance(c, ast.Call) and attr_chain(c.func) == [seg, gen]]
         t = Taint(lp, lambda n: any(n is c for c in gens), through_containers=False)
         asg = [x for x in ast.walk(lp) if isinstance(x, ast.Assign) and isinstance(x.targets[0], ast.Subscript) and isinstance(x.targets[0].value, ast.Name) and x.targets[0].value.id == "self"]
